@@ -61,6 +61,7 @@ def verus_verdict(tier, use_cache=True):
         res = V.run_verus(w.text, rlimit=rlimit, timeout=1200 if tier == 'quick' else 3000)
         res['cache'] = 'miss'
         os.makedirs(os.path.dirname(cpath), exist_ok=True)
+        res['json_ok'] = res.get('json') is not None
         slim = {k: v for k, v in res.items() if k != 'json'}
         json.dump(slim, open(cpath, 'w'))
     diags = V.classify(res, w.text, fns, ins_lines=set(w.ins_line.keys()))
@@ -141,7 +142,7 @@ def dev(filter_):
         n += 1
         print('---- %s  kinds=%s undecided=%s  [%s]' % (fid, dg.kinds, dg.undecided, src_loc(vd, dg.line)))
         print(dg.rendered.rstrip())
-    if res.get('json') is None:
+    if not res.get('json_ok'):
         print(res['raw_err'][-6000:])
     print('%d diagnostics shown; functions under contract: %d' % (n, len(vd['inv'])))
     if os.environ.get('KEEP'):
@@ -155,7 +156,32 @@ def main():
     ap.add_argument('--tier', default=os.environ.get('VERIF_TIER', 'quick'))
     ap.add_argument('--replay')
     ap.add_argument('--dev', nargs='?', const='', default=None)
+    ap.add_argument('--make-ledger', action='store_true')
+    ap.add_argument('--make-trusted', action='store_true')
     a = ap.parse_args()
+    if a.make_ledger or a.make_trusted:
+        vd = verus_verdict('quick', use_cache=False)
+        if a.make_trusted:
+            json.dump({'items': trusted_scan(vd['w'].text)}, open(TRUSTED, 'w'), indent=1)
+            print('trusted_base.json: %d items' % len(trusted_scan(vd['w'].text)))
+        if a.make_ledger:
+            bad = set()
+            for dg in vd['diags']:
+                if dg.fn is not None:
+                    for k in (dg.kinds or ['?']):
+                        bad.add('%s#%s' % (dg.fn.id, k))
+                    if dg.undecided:
+                        bad.add(dg.fn.id)
+            obl = []
+            for fid, kinds in vd['inv'].items():
+                for k in kinds:
+                    oid = '%s#%s' % (fid, k)
+                    if oid not in bad and fid not in bad:
+                        obl.append(oid)
+            json.dump({'note': 'obligations discharged on the pinned tree after the fix: commits; regenerate deliberately with check.py --make-ledger',
+                       'repo_head': os.popen('git -C %s rev-parse HEAD' % REPO).read().strip(), 'obligations': sorted(obl)}, open(LEDGER, 'w'), indent=1)
+            print('ledger: %d obligations (%d failing excluded)' % (len(obl), len(bad)))
+        return 0
     if a.dev is not None:
         return dev(a.dev)
     import driver
